@@ -74,6 +74,12 @@ Definition rec_server := 6. Definition rec_port := 7.
 
 Definition be16 (b : bytes) : Z := nth 0 b 0 * 256 + nth 1 b 0.
 
+(* the critical bit of a 16-bit record type: hasBit(n, 15), setBit(n, 15) on a type below 2^15,
+   n &^ (1 << 15)  (coq/GenEquiv/C20.v ties the first two to the translated Go functions) *)
+Definition has_critical (ty : Z) : bool := 32768 <=? ty.
+Definition set_critical (t : Z) : Z := t + 32768.
+Definition clear_critical (ty : Z) : Z := ty mod 32768.
+
 Definition error_of_code (code : Z) : Z :=
   if code =? 0 then e_rec_critical else if code =? 1 then e_rec_badreq
   else if code =? 2 then e_rec_internal else e_rec_unknown.
@@ -95,8 +101,8 @@ Section Reader.
     | Some (h, s1) =>
       let ty := be16 h in
       let blen := Z.to_nat (be16 (skipn 2 h)) in
-      let critical := 32768 <=? ty in          (* hasBit(msg.Type, 15) *)
-      let t := ty mod 32768 in                 (* msg.Type &^= 1 << 15 *)
+      let critical := has_critical ty in       (* hasBit(msg.Type, 15) *)
+      let t := clear_critical ty in            (* msg.Type &^= 1 << 15 *)
       if t =? rec_eom then Stop d 0
       else if t =? rec_nextproto then
         match tk 2 s1 with Some (_, s2) => Next s2 d | None => Stop d (ioe s1) end
@@ -313,7 +319,7 @@ Definition store_cookie (st : kdata) (c : bytes) : kdata :=
    (each the encoding of the session keys sealed under the current server key with a fresh
    nonce), end of message.  seal is symbolic: key id, nonce index, plaintext -> cookie bytes. *)
 Definition hdr (t : Z) (critical : bool) (len : nat) : bytes :=
-  let ty := if critical then t + 32768 else t in
+  let ty := if critical then set_critical t else t in
   [ty / 256; ty mod 256; (Z.of_nat len mod 65536) / 256; Z.of_nat len mod 256].
 
 Definition pack (t : Z) (critical : bool) (body : bytes) : bytes := hdr t critical (length body) ++ body.
